@@ -7,6 +7,9 @@ func init() {
 		if e.thorough {
 			b, per = 10, 40
 		}
-		return runFamilies(e, "C06", "extend", famExtend, b, per, 6, nil, nil)
+		if err := runFamilies(e, "C06", "extend", famExtend, b, per, 6, nil, nil); err != nil {
+			return err
+		}
+		return runExtSel(e)
 	}
 }
